@@ -1293,7 +1293,7 @@ func (c *Ctx) hintSetterPaths(o *obs) {
 			continue
 		}
 		t := newTally(o, fn, f.Pos())
-		key := "stores the caller's name under the caller's path, flagged alias exactly for ImportAlias, exactly once on every path"
+		key := "File.hints receives the caller's name under the caller's path, flagged alias exactly for ImportAlias, exactly once on every path"
 		for _, p := range paths {
 			if p.End != "return" {
 				t.note(key, false, "path %s ends in %s", traceOf(p), p.End)
